@@ -702,6 +702,215 @@ func ackeffect(r *hx.Rng, f *failures, stats map[string]int) {
 	stats["ackeffect"]++
 }
 
+// retrace: one connection updates a retained topic with the values 1..n while other connections keep
+// subscribing to it.  Whatever the interleaving, a subscription sees a consistent cut: the retained value k it
+// is sent when it subscribes, then the live forwards k+1, k+2, ... n without a gap (QoS 0 forwards of one
+// publisher arrive in order).  An update that reaches a concurrent subscription neither as a retained message
+// nor as a forward was lost to it (C08: "with retained updates concurrent to new subscriptions").
+func retrace(r *hx.Rng, f *failures, stats map[string]int) {
+	b := newBroker()
+	const n = 2500
+	p, err := b.connect("rpub", 60, nil)
+	if err != nil {
+		f.add("harness: %v", err)
+		return
+	}
+	var wg sync.WaitGroup
+	var started, done int32
+	conns := int32(1)
+	for s := 0; s < 8; s++ {
+		wg.Add(1)
+		go func(s int) {
+			defer wg.Done()
+			for round := 0; atomic.LoadInt32(&done) == 0 && round < 400; round++ {
+				c, err := b.connect(fmt.Sprintf("rsub%d_%d", s, round), 60, nil)
+				if err != nil {
+					return
+				}
+				atomic.AddInt32(&conns, 1)
+				atomic.AddInt32(&started, 1)
+				c.write(mq.Subscribe(1, []string{"r/#"}, []int{0}))
+				// the values this subscription is sent (the retained one when it subscribes and the forwards; a forward can
+				// overtake the retained message, and the value retained while the subscription was being made can arrive
+				// both ways): together they must be a gap-free range
+				vals := map[int]bool{}
+				lo, hi, sawRetained := -1, -1, false
+				for seen := 0; hi < n && seen < 8; seen++ {
+					pk, err := c.read(3 * time.Second)
+					if err != nil {
+						if hi >= 0 && hi < n {
+							f.add("C08: a subscription made while the retained topic was being updated received values up to %d and then nothing for 3s although the updates went on up to %d", hi, n)
+						}
+						break
+					}
+					if mq.Type(pk) != mq.PUBLISH {
+						continue
+					}
+					pub, _ := mq.ParsePublish(pk)
+					v := int(binary.BigEndian.Uint32(pub.Payload))
+					sawRetained = sawRetained || pub.Retain
+					vals[v] = true
+					if lo < 0 || v < lo {
+						lo = v
+					}
+					if v > hi {
+						hi = v
+					}
+				}
+				if lo >= 0 && len(vals) != hi-lo+1 {
+					var missing []int
+					for v := lo; v <= hi; v++ {
+						if !vals[v] {
+							missing = append(missing, v)
+						}
+					}
+					f.add("C08: a subscription made while the retained topic was being updated received the values %d..%d except %v: those updates reached it neither as retained message nor as forward (retained message seen: %v)", lo, hi, missing, sawRetained)
+				}
+				c.c.Close()
+			}
+		}(s)
+	}
+	for v := 1; v <= n; v++ {
+		pl := make([]byte, 4)
+		binary.BigEndian.PutUint32(pl, uint32(v))
+		if p.write(mq.Publish("r/t", pl, 0, true, false, 0)) != nil {
+			f.add("harness: retained update could not be written")
+			break
+		}
+		time.Sleep(40 * time.Microsecond)
+	}
+	p.write(mq.Pingreq())
+	p.read(5 * time.Second)
+	atomic.StoreInt32(&done, 1)
+	wg.Wait()
+	p.c.Close()
+	b.expectStops(f, int(atomic.LoadInt32(&conns)), 15*time.Second, "retrace")
+	b.shutdown(f, "retrace")
+	stats["retrace_subscriptions"] += int(atomic.LoadInt32(&started))
+	stats["retrace"]++
+}
+
+// gateProvider wraps the in-memory topic store: the driver can hold a connection's processor right after one of
+// its calls into the store (each call is atomic under the store's own lock), run another connection to
+// completion, and release it: forced interleavings of store operations of two connections, without touching
+// the library
+type gateProvider struct {
+	topics.Provider
+	mu     sync.Mutex
+	hold   string        // hold the caller after its next call of this kind ("publish": Retain or Subscribers; "subscribe": Subscribe)
+	paused chan struct{} // signalled when a caller is being held
+	resume chan struct{}
+}
+
+func (g *gateProvider) gate(kind string) {
+	g.mu.Lock()
+	hit := g.hold == kind
+	if hit {
+		g.hold = ""
+	}
+	g.mu.Unlock()
+	if hit {
+		g.paused <- struct{}{}
+		<-g.resume
+	}
+}
+
+func (g *gateProvider) Subscribe(topic []byte, qos byte, sub interface{}) (byte, error) {
+	q, err := g.Provider.Subscribe(topic, qos, sub)
+	g.gate("subscribe")
+	return q, err
+}
+
+func (g *gateProvider) Subscribers(topic []byte, qos byte, subs *[]interface{}, qoss *[]byte) error {
+	err := g.Provider.Subscribers(topic, qos, subs, qoss)
+	g.gate("publish")
+	return err
+}
+
+func (g *gateProvider) Retain(msg *message.PublishMessage) error {
+	err := g.Provider.Retain(msg)
+	g.gate("publish")
+	return err
+}
+
+// retforce: a retained update and a new subscription to its topic, with one of the two held between its two
+// operations on the topic store while the other one runs to completion.  In every such interleaving the
+// subscription must be sent the new value: as the retained message, as a forward, or both.
+func retforce(f *failures, stats map[string]int) {
+	for _, held := range []string{"publish", "subscribe"} {
+		for _, withOld := range []bool{false, true} {
+			topics.Unregister("verifgate")
+			g := &gateProvider{Provider: topics.NewMemProvider(), paused: make(chan struct{}, 1), resume: make(chan struct{})}
+			topics.Register("verifgate", g)
+			b := newBroker()
+			b.svr.TopicsProvider = "verifgate"
+			what := fmt.Sprintf("retained update (old value present: %v) and new subscription, %s held between its two store operations", withOld, held)
+			p, err1 := b.connect("fp", 60, nil)
+			s, err2 := b.connect("fs", 60, nil)
+			if err1 != nil || err2 != nil {
+				f.add("harness: connect failed")
+				return
+			}
+			if withOld {
+				p.write(mq.Publish("r/t", []byte("old"), 0, true, false, 0))
+				p.write(mq.Pingreq())
+				p.read(5 * time.Second)
+			}
+			g.mu.Lock()
+			g.hold = held
+			g.mu.Unlock()
+			first, second := p, s
+			firstPkt, secondPkt := mq.Publish("r/t", []byte("new"), 0, true, false, 0), mq.Subscribe(1, []string{"r/#"}, []int{0})
+			if held == "subscribe" {
+				first, second, firstPkt, secondPkt = s, p, secondPkt, firstPkt
+			}
+			first.write(firstPkt)
+			select {
+			case <-g.paused:
+			case <-time.After(5 * time.Second):
+				f.add("harness: %s: the held operation was not reached", what)
+				return
+			}
+			// the other connection runs to completion (barrier), then the held one goes on
+			second.write(secondPkt)
+			second.write(mq.Pingreq())
+			gotNew := false
+			drain := func(c *client, until int) {
+				for {
+					pk, err := c.read(3 * time.Second)
+					if err != nil {
+						return
+					}
+					if mq.Type(pk) == mq.PUBLISH {
+						if pub, _ := mq.ParsePublish(pk); string(pub.Payload) == "new" && c == s {
+							gotNew = true
+						}
+					}
+					if mq.Type(pk) == until {
+						return
+					}
+				}
+			}
+			drain(second, mq.PINGRESP)
+			g.resume <- struct{}{}
+			first.write(mq.Pingreq())
+			drain(first, mq.PINGRESP)
+			// whatever is still on its way to the subscriber
+			s.write(mq.Pingreq())
+			drain(s, mq.PINGRESP)
+			if !gotNew {
+				f.add("C08: %s: the subscription was sent the new value neither as retained message nor as forward", what)
+			}
+			p.c.Close()
+			s.c.Close()
+			b.expectStops(f, 2, 10*time.Second, "retforce")
+			b.shutdown(f, "retforce")
+			stats["retforce"]++
+		}
+	}
+	topics.Unregister("verifgate")
+}
+
 // keep-alive: K = 1 s
 func keepalive(f *failures, stats map[string]int) {
 	b := newBroker()
@@ -852,6 +1061,11 @@ func main() {
 				churn(r, f, stats)
 			case "ackeffect":
 				ackeffect(r, f, stats)
+			case "retrace":
+				retrace(r, f, stats)
+				if i == 0 {
+					retforce(f, stats)
+				}
 			case "keepalive":
 				if i == 0 {
 					keepalive(f, stats)
